@@ -26,7 +26,7 @@ import (
 // domain's facts fixed): no key value is ever computed.
 
 func init() {
-	register(&Rule{Name: "C06.op-table", Min: 5, Run: c06OpTable,
+	register(&Rule{Name: "C06.op-table", Min: 3, Run: c06OpTable,
 		Doc: "mapOp maps each SQLite constraint operator to the s3db operator of the same name and everything else to OpIgnore"})
 	register(&Rule{Name: "C06.window", Min: 6, Run: c06Window,
 		Doc: "Cursor.Filter: an upper bound is only ever tightened by <, <=, =; a lower bound by >, >=, =; a bound is strict only for < / >"})
@@ -67,6 +67,29 @@ func enumByValue(c *Ctx, pkgPath, typeName, prefix string) map[int64]string {
 	return out
 }
 
+// constEnv: integer constants carried by phis along the path being walked.
+type constEnv struct{ m string } // "name=value;" sorted by insertion (paths are short)
+
+func (e constEnv) Key() string { return e.m }
+
+func (e constEnv) get(v ssa.Value) (int64, bool) {
+	if k, ok := v.(*ssa.Const); ok && k.Value != nil && k.Value.Kind() == constant.Int {
+		return k.Int64(), true
+	}
+	tag := v.Name() + "="
+	if i := strings.LastIndex(e.m, ";"+tag); i >= 0 {
+		rest := e.m[i+1+len(tag):]
+		var x int64
+		fmt.Sscan(rest[:strings.Index(rest, ";")], &x)
+		return x, true
+	}
+	return 0, false
+}
+
+func (e constEnv) set(v ssa.Value, x int64) constEnv {
+	return constEnv{e.m + fmt.Sprintf(";%s=%d;", v.Name(), x)}
+}
+
 func c06OpTable(c *Ctx) {
 	const rule = "C06.op-table"
 	fn := mustFunc(c, "sqlite", "", "mapOp")
@@ -76,7 +99,7 @@ func c06OpTable(c *Ctx) {
 	name := core.FuncName(fn)
 	sq := enumByValue(c, riyazaliPkg, "ConstraintOp", "INDEX_CONSTRAINT_")
 	ops := enumByValue(c, core.ModPath, "Op", "Op")
-	if len(sq) == 0 || len(ops) == 0 {
+	if len(sq) == 0 || len(ops) == 0 || len(fn.Params) != 2 {
 		c.R.Unk(rule, name+": tables", c.P.Pos(fn.Pos()), "cannot read the operator enumerations")
 		return
 	}
@@ -86,42 +109,84 @@ func c06OpTable(c *Ctx) {
 			ignore = v
 		}
 	}
-	retConst := func(b *ssa.BasicBlock) (int64, bool) {
-		ret, ok := b.Instrs[len(b.Instrs)-1].(*ssa.Return)
-		if !ok || len(ret.Results) != 1 {
-			return 0, false
-		}
-		k, ok := ret.Results[0].(*ssa.Const)
-		if !ok || k.Value == nil || k.Value.Kind() != constant.Int {
-			return 0, false
-		}
-		return k.Int64(), true
-	}
-	n, nfb := 0, 0
-	for _, b := range fn.Blocks {
-		rv, isRet := retConst(b)
-		if !isRet {
-			if _, ok := b.Instrs[len(b.Instrs)-1].(*ssa.Return); ok {
-				c.R.Unk(rule, name+": returns", c.P.Pos(b.Instrs[len(b.Instrs)-1].Pos()), "a return that is not a constant operator")
+	in, usable := fn.Params[0], fn.Params[1]
+	// the function is evaluated for every (operator constant, usable) over the facts
+	// "in == K" / "usable": the result is the constant returned on the only feasible path
+	eval := func(k int64, us bool) (map[int64]bool, bool) {
+		facts := map[ssa.Value]bool{usable: us}
+		for _, b := range fn.Blocks {
+			for _, ins := range b.Instrs {
+				bo, ok := ins.(*ssa.BinOp)
+				if !ok || bo.Op != token.EQL && bo.Op != token.NEQ {
+					continue
+				}
+				var kc *ssa.Const
+				if bo.X == ssa.Value(in) {
+					kc, _ = bo.Y.(*ssa.Const)
+				} else if bo.Y == ssa.Value(in) {
+					kc, _ = bo.X.(*ssa.Const)
+				}
+				if kc == nil || kc.Value == nil {
+					continue
+				}
+				facts[bo] = (kc.Int64() == k) == (bo.Op == token.EQL)
 			}
-			continue
 		}
-		ci, ok := caseOf(b)
-		if !ok || ci.constVal == nil {
-			// default / not usable: must be OpIgnore
-			nfb++
-			c.R.Cond(rv == ignore, rule, fmt.Sprintf("%s: fallback #%d", name, nfb), c.P.Pos(b.Instrs[len(b.Instrs)-1].Pos()),
-				"operators without a case (and unusable constraints) are ignored", "a constraint that has no case of its own is pushed down as Op"+ops[rv]+": the scan window is cut by a constraint of another meaning and rows are missing")
-			continue
+		h := an.THooks{Phi: func(ph *ssa.Phi, inc ssa.Value, st an.TState) an.TState {
+			e := st.(constEnv)
+			if x, ok := e.get(inc); ok {
+				return e.set(ph, x)
+			}
+			return e
+		}}
+		exits, _ := an.WalkTypestateFrom(fn.Blocks[0], 0, constEnv{}, facts, h, nil)
+		out := map[int64]bool{}
+		okAll := len(exits) > 0
+		for _, ex := range exits {
+			if len(ex.Ret.Results) != 1 {
+				return nil, false
+			}
+			if x, ok := ex.St.(constEnv).get(ex.Ret.Results[0]); ok {
+				out[x] = true
+			} else {
+				okAll = false
+			}
 		}
-		n++
-		from, to := sq[*ci.constVal], ops[rv]
-		good := from != "" && (from == to || rv == ignore)
-		c.R.Cond(good, rule, fmt.Sprintf("%s: INDEX_CONSTRAINT_%s", name, from), c.P.Pos(b.Instrs[len(b.Instrs)-1].Pos()),
-			"mapped to Op"+to, fmt.Sprintf("INDEX_CONSTRAINT_%s is pushed down as Op%s: the window is computed for a different comparison than the one SQLite asked for", from, to))
+		return out, okAll
 	}
-	if n == 0 {
-		c.R.Unk(rule, name+": cases", c.P.Pos(fn.Pos()), "no operator case found")
+	var ks []int64
+	for k := range sq {
+		ks = append(ks, k)
+	}
+	sort.Slice(ks, func(i, j int) bool { return ks[i] < ks[j] })
+	pushed := 0
+	for _, k := range ks {
+		from := sq[k]
+		res, ok := eval(k, true)
+		if !ok || len(res) != 1 {
+			c.R.Unk(rule, fmt.Sprintf("%s: INDEX_CONSTRAINT_%s", name, from), c.P.Pos(fn.Pos()), "the result for this operator is not a single constant")
+			continue
+		}
+		var rv int64
+		for x := range res {
+			rv = x
+		}
+		if rv == ignore {
+			continue // not pushed down: SQLite filters (performance only)
+		}
+		pushed++
+		to := ops[rv]
+		c.R.Cond(from == to, rule, fmt.Sprintf("%s: INDEX_CONSTRAINT_%s", name, from), c.P.Pos(fn.Pos()),
+			"pushed down as Op"+to, fmt.Sprintf("INDEX_CONSTRAINT_%s is pushed down as Op%s: the window is computed for a different comparison than the one SQLite asked for, rows are missing", from, to))
+		// an unusable constraint carries no value: it must be ignored
+		if resU, okU := eval(k, false); !okU || len(resU) != 1 || !resU[ignore] {
+			c.R.Bad(rule, fmt.Sprintf("%s: unusable INDEX_CONSTRAINT_%s ignored", name, from), c.P.Pos(fn.Pos()), "an unusable constraint is pushed down: xFilter gets no argument for it")
+		}
+	}
+	c.R.Stats["C06.op-table_operators"] = len(ks)
+	c.R.Stats["C06.op-table_pushed"] = pushed
+	if pushed == 0 {
+		c.R.Unk(rule, name+": cases", c.P.Pos(fn.Pos()), "no operator is pushed down")
 	}
 }
 
